@@ -1,5 +1,5 @@
 """C12 Same state, same search; ucinewgame means a fresh engine."""
-import os, json, time, re
+import os, json, time, re, subprocess
 import vlib, games, uci, searches
 from fen2json import fen2pos
 
@@ -175,6 +175,18 @@ def main():
         det = d["detail"]
         chk.violation("%s|%s|%s|%s" % (det.get("proc"), det.get("first_proc"), det.get("position"), det.get("depth")), d["what"], d,
                       replay={"kind": "session-events", "events": tf, "line": d.get("at")})
+    # the engine's own benchmark (87 positions searched one after the other on fresh tables each): two processes of the
+    # optimised build must report the same node count (thorough tier; the checked build needs minutes for it)
+    if not q:
+        def bench(_):
+            r = subprocess.run([bins["release"], "uci"], input="bench\nquit\n", capture_output=True, text=True, timeout=900)
+            m = re.findall(r"(\d+) nodes", r.stdout)
+            return m[-1] if m else "no-output:" + r.stdout[-200:]
+        b = vlib.pmap(bench, [0, 1, 2], n=3)
+        chk.cov["bench_nodes_three_processes"] = b
+        if len(set(b)) != 1 or not b[0].isdigit():
+            chk.violation("bench|%s" % "|".join(b), "bench-node-count-differs-between-processes", {"nodes": b},
+                          replay={"kind": "bench", "how": "echo bench | engine uci (release build), three times"})
     # the move-ordering memories themselves (OrderingTables.tla): random operations on the real tables, every step validated;
     # a history reset that leaves something behind is a C12 violation, any other mismatch is drift of the CodeView
     hb = vlib.build_harness("dev")
